@@ -32,21 +32,16 @@ func (t *TargetHasher) SetTargetChangeHash(target *model.Target) error {
 	}
 
 	// Collect the OutputHash values of all dependencies
-	dependencies := t.graph.GetDependencies(target)
-	dependencyHashes := make([]string, len(target.Dependencies))
-	for index, dependency := range dependencies {
-		targetDependency, ok := dependency.(*model.Target)
-		if !ok {
-			// Only consider dependencies that are targets
-			continue
-		}
-
+	// (a dependency on an alias resolves to the target that the alias points to)
+	dependencies := t.graph.GetTargetDependencies(target)
+	dependencyHashes := make([]string, 0, len(dependencies))
+	for _, targetDependency := range dependencies {
 		outputHash := targetDependency.OutputHash
 		if outputHash == "" {
 			return fmt.Errorf("dependency %s of %s has no output hash", targetDependency.Label, target.Label)
 		}
 
-		dependencyHashes[index] = targetDependency.OutputHash
+		dependencyHashes = append(dependencyHashes, outputHash)
 	}
 
 	changeHash, err := GetTargetChangeHash(*target, dependencyHashes)
